@@ -61,7 +61,7 @@ Proof.
   intros R E B L. destruct (inv_reachable timeout _ _ _ R) as [_ _ _ _ _ _ H6 H7 _ _ _].
   assert (C : b_closed s = false).
   { destruct (b_closed s) eqn:C; auto. exfalso. unfold K6, K7, old in *. rewrite B, E in *.
-    destruct (H6 eq_refl) as [X|[X|[X|[[X _]|X]]]]; try discriminate; try lia.
+    destruct (H6 C) as [X|[X|[X|[[X _]|X]]]]; try discriminate; try lia.
     destruct H7 as [_ H7]. rewrite (H7 eq_refl) in X. discriminate. }
   split; auto. split.
   - unfold bstep. rewrite E, C. reflexivity.
@@ -93,3 +93,297 @@ Qed.
 
 End T.
 End BirthT.
+
+(* ---- the neighbouring design: Last is left at the zero time by newUDPSessionEntry and stamped by Feed ---- *)
+Module BirthR.
+Import Birth BirthP.
+
+(* Whatever the idle timeout (below the start clock, i.e. below some 2000 years): a sweep that scans between the table
+   insert and Feed's first statement closes the entry at the very instant of its creation; its datagram is dropped
+   ("session is closed": no hook, no New, no dial), a Close(nil) is reported for a session that never had a New. *)
+Definition killed_at_birth : list bact :=
+  [ARecv true; ALookup; ACreate; AInsert; AScan; ASwC1; ASwC2; ASwC3; AStampF; AInitClosed].
+
+Lemma stamped_by_feed_refuted timeout t0 : timeout < t0 ->
+  exists s, brun timeout false (binit t0 0) killed_at_birth = Some s /\ reachable timeout false t0 0 s /\
+            b_now s = t0 /\ b_born s = Some t0 /\ b_rl s = BIdle /\ b_vis s = false /\
+            o_nil_early s = true /\ o_hook s = false /\ o_new s = false /\ o_write s = false.
+Proof.
+  intros L.
+  assert (I : (timeout <? t0 - 0) = true) by (apply N.ltb_lt; lia).
+  assert (E : exists s, brun timeout false (binit t0 0) killed_at_birth = Some s /\
+            b_now s = t0 /\ b_born s = Some t0 /\ b_rl s = BIdle /\ b_vis s = false /\
+            o_nil_early s = true /\ o_hook s = false /\ o_new s = false /\ o_write s = false).
+  { unfold killed_at_birth, binit. cbv -[N.ltb N.sub]. rewrite I.
+    eexists. split; [reflexivity|]. cbv. repeat split; reflexivity. }
+  destruct E as (s & R & rest). exists s. split; auto. split; auto.
+  eapply reachable_run; [apply R_init | exact R].
+Qed.
+
+(* the same schedule on the code as it is: the scan does not select the entry, the datagram reaches the hook *)
+Lemma same_schedule_on_the_code timeout t0 :
+  exists s, brun timeout true (binit t0 0) [ARecv true; ALookup; ACreate; AInsert; AScan; AStampF; ADialOk; AWriteF] = Some s /\
+            b_sw s = SIdle /\ b_vis s = true /\ b_closed s = false /\ o_hook s = true /\ o_new s = true /\ o_write s = true /\
+            o_nil_early s = false.
+Proof.
+  assert (I : (timeout <? t0 - t0) = false) by (apply N.ltb_ge; lia).
+  unfold binit. cbv -[N.ltb N.sub]. rewrite I.
+  eexists. split; [reflexivity|]. cbv. repeat split; reflexivity.
+Qed.
+
+End BirthR.
+
+(* ====================================================================================================== *)
+
+Module LocksP.
+Import Locks.
+Local Open Scope nat_scope.
+
+Definition ok_thread (th : thread) : Prop :=
+  match t_r th, t_w th with
+  | 0, WNo => flat_from MOut (t_prog th) = true
+  | 1, WNo => flat_from MRead (t_prog th) = true
+  | 0, WAnn => exists p, t_prog th = LW :: p /\ flat_from MWrite p = true
+  | 0, WHeld => flat_from MWrite (t_prog th) = true
+  | _, _ => False
+  end.
+
+Definition ok (ths : list thread) : Prop := Forall ok_thread ths.
+
+(* ---- list plumbing ---- *)
+Lemma nth_upd_eq {A} i (x y : A) l : nth_error l i = Some y -> nth_error (upd i x l) i = Some x.
+Proof. revert i; induction l as [|h t IH]; intros [|i]; simpl; intros H; try discriminate; auto. Qed.
+
+Lemma Forall_upd {A} (P : A -> Prop) i x l : Forall P l -> P x -> Forall P (upd i x l).
+Proof.
+  intros F Px. revert i. induction F as [|h t Ph Ft IH]; intros [|i]; simpl; auto.
+Qed.
+
+Lemma find_thread (P : thread -> bool) ths : existsb P ths = true -> exists i th, nth_error ths i = Some th /\ P th = true.
+Proof.
+  intros H. apply existsb_exists in H. destruct H as (th & I & Pt). apply In_nth_error in I. destruct I as [i I]. eauto.
+Qed.
+
+Lemma none_thread (P : thread -> bool) ths th : existsb P ths = false -> In th ths -> P th = false.
+Proof.
+  intros H I. destruct (P th) eqn:E; auto. assert (existsb P ths = true) by (apply existsb_exists; eauto). congruence.
+Qed.
+
+Definition holdsW th := match t_w th with WHeld => true | _ => false end.
+Definition holdsR th := match t_r th with O => false | _ => true end.
+Definition annW th := match t_w th with WAnn => true | _ => false end.
+Definition busy th := match t_prog th with [] => false | _ => true end.
+
+Lemma readers_zero ths : existsb holdsR ths = false -> readers ths = 0.
+Proof.
+  induction ths as [|h t IH]; simpl; auto. intros H. apply orb_false_iff in H. destruct H as [H1 H2].
+  unfold holdsR in H1. destruct (t_r h); try discriminate. simpl. auto.
+Qed.
+
+Lemma wbusy_false ths : existsb holdsW ths = false -> existsb annW ths = false -> wbusy ths = false.
+Proof.
+  unfold wbusy. induction ths as [|h t IH]; simpl; auto. intros H1 H2.
+  apply orb_false_iff in H1. apply orb_false_iff in H2. destruct H1 as [A1 A2], H2 as [B1 B2].
+  rewrite IH; auto. unfold holdsW, annW in *. destruct (t_w h); try discriminate; auto.
+Qed.
+
+Lemma all_done_false ths : all_done ths = false -> existsb busy ths = true.
+Proof.
+  unfold all_done. induction ths as [|h t IH]; simpl; try discriminate. intros H.
+  unfold busy at 1. destruct (t_prog h); simpl in *; auto.
+Qed.
+
+(* ---- progress: a state in which every thread follows the discipline is never stuck ---- *)
+Lemma progress ths : ok ths -> all_done ths = false -> exists i ths', lstep ths i = Some ths'.
+Proof.
+  intros O ND. unfold ok in O. rewrite Forall_forall in O.
+  destruct (existsb holdsW ths) eqn:EW.
+  { destruct (find_thread _ _ EW) as (i & th & N & P). exists i. unfold lstep. rewrite N.
+    assert (K := O th (nth_error_In _ _ N)). unfold ok_thread, holdsW in *.
+    destruct (t_w th) eqn:W; try discriminate. destruct (t_r th) as [|[|k]]; try contradiction.
+    destruct (t_prog th) as [|[] p]; simpl in K; try discriminate; eauto. }
+  destruct (existsb holdsR ths) eqn:ER.
+  { destruct (find_thread _ _ ER) as (i & th & N & P). exists i. unfold lstep. rewrite N.
+    assert (K := O th (nth_error_In _ _ N)). assert (NW := none_thread _ _ th EW (nth_error_In _ _ N)).
+    unfold ok_thread, holdsR, holdsW in *.
+    destruct (t_r th) as [|[|k]] eqn:Rd; try discriminate; destruct (t_w th) eqn:W; try contradiction; try discriminate.
+    destruct (t_prog th) as [|[] p]; simpl in K; try discriminate; eauto. }
+  assert (RZ := readers_zero _ ER).
+  destruct (existsb annW ths) eqn:EA.
+  { destruct (find_thread _ _ EA) as (i & th & N & P). exists i. unfold lstep. rewrite N.
+    assert (K := O th (nth_error_In _ _ N)). unfold ok_thread, annW in *.
+    destruct (t_w th) eqn:W; try discriminate. destruct (t_r th) as [|[|k]]; try contradiction.
+    destruct K as (p & -> & _). rewrite RZ. eauto. }
+  assert (WB := wbusy_false _ EW EA).
+  destruct (find_thread _ _ (all_done_false _ ND)) as (i & th & N & P). exists i. unfold lstep. rewrite N.
+  assert (I := nth_error_In _ _ N). assert (K := O th I).
+  assert (N1 := none_thread _ _ th EW I). assert (N2 := none_thread _ _ th ER I). assert (N3 := none_thread _ _ th EA I).
+  unfold ok_thread, holdsW, holdsR, annW, busy in *.
+  destruct (t_r th); try discriminate. destruct (t_w th); try discriminate.
+  destruct (t_prog th) as [|[] p]; simpl in K; try discriminate; rewrite ?WB; eauto.
+Qed.
+
+(* ---- the discipline is kept by every step ---- *)
+Lemma ok_step ths i ths' : ok ths -> lstep ths i = Some ths' -> ok ths'.
+Proof.
+  unfold ok. intros O St. unfold lstep in St. destruct (nth_error ths i) as [th|] eqn:N; try discriminate.
+  assert (K : ok_thread th) by (rewrite Forall_forall in O; apply O; eapply nth_error_In; eauto).
+  unfold ok_thread in K.
+  destruct (t_prog th) as [|op p] eqn:Pg; try discriminate.
+  destruct op.
+  - destruct (wbusy ths); try discriminate. injection St as <-. apply Forall_upd; auto. unfold ok_thread; simpl.
+    destruct (t_r th) as [|[|k]], (t_w th); simpl in K; try contradiction; try discriminate; auto.
+    destruct K as (q & E & _); discriminate.
+  - destruct (t_r th) as [|k] eqn:Rd; try discriminate. injection St as <-. apply Forall_upd; auto. unfold ok_thread; simpl.
+    destruct k as [|k], (t_w th); simpl in K; try contradiction; try discriminate; auto.
+  - destruct (t_w th) eqn:W.
+    + destruct (wbusy ths); try discriminate. injection St as <-. apply Forall_upd; auto. unfold ok_thread; simpl.
+      destruct (t_r th) as [|[|k]]; simpl in K; try contradiction; try discriminate. eauto.
+    + destruct (readers ths); try discriminate. injection St as <-. apply Forall_upd; auto. unfold ok_thread; simpl.
+      destruct (t_r th) as [|[|k]]; try contradiction. destruct K as (q & E & F). injection E as <-. auto.
+    + discriminate.
+  - destruct (t_w th) eqn:W; try discriminate. injection St as <-. apply Forall_upd; auto. unfold ok_thread; simpl.
+    destruct (t_r th) as [|[|k]]; simpl in K; try contradiction; try discriminate; auto.
+  - injection St as <-. apply Forall_upd; auto. unfold ok_thread; simpl.
+    destruct (t_r th) as [|[|k]], (t_w th); simpl in K; try contradiction; auto.
+    destruct K as (q & E & _); discriminate.
+Qed.
+
+Lemma ok_run ths sched ths' : ok ths -> lrun ths sched = Some ths' -> ok ths'.
+Proof.
+  revert ths. induction sched as [|i t IH]; simpl; intros ths O H.
+  - injection H as <-; auto.
+  - destruct (lstep ths i) as [x|] eqn:E; try discriminate. apply (IH x); auto. eapply ok_step; eauto.
+Qed.
+
+Lemma ok_start progs : Forall (fun p => flat p = true) progs -> ok (start progs).
+Proof.
+  unfold ok, start. induction 1; simpl; constructor; auto.
+Qed.
+
+(* ---- every step uses up work ---- *)
+Lemma measure_upd ths i th th' : nth_error ths i = Some th -> measure (upd i th' ths) + weight th = measure ths + weight th'.
+Proof.
+  revert i. induction ths as [|h t IH]; intros [|i] H; simpl in *; try discriminate.
+  - injection H as ->. lia.
+  - specialize (IH _ H). lia.
+Qed.
+
+Lemma step_decreases ths i ths' : lstep ths i = Some ths' -> measure ths' < measure ths.
+Proof.
+  unfold lstep. destruct (nth_error ths i) as [th|] eqn:N; try discriminate.
+  destruct (t_prog th) as [|op p] eqn:Pg; try discriminate. intros St.
+  assert (W : forall th', ths' = upd i th' ths -> weight th' < weight th -> measure ths' < measure ths).
+  { intros th' -> L. pose proof (measure_upd ths i th th' N). lia. }
+  destruct op.
+  - destruct (wbusy ths); try discriminate. injection St as E. eapply W; [symmetry; exact E|].
+    unfold weight; simpl. rewrite Pg. simpl. destruct (t_w th); lia.
+  - destruct (t_r th); try discriminate. injection St as E. eapply W; [symmetry; exact E|].
+    unfold weight; simpl. rewrite Pg. simpl. destruct (t_w th); lia.
+  - destruct (t_w th) eqn:Wp.
+    + destruct (wbusy ths); try discriminate. injection St as E. eapply W; [symmetry; exact E|].
+      unfold weight; simpl. rewrite Pg, Wp. simpl. lia.
+    + destruct (readers ths); try discriminate. injection St as E. eapply W; [symmetry; exact E|].
+      unfold weight; simpl. rewrite Pg, Wp. simpl. lia.
+    + discriminate.
+  - destruct (t_w th) eqn:Wp; try discriminate. injection St as E. eapply W; [symmetry; exact E|].
+    unfold weight; simpl. rewrite Pg, Wp. simpl. lia.
+  - injection St as E. eapply W; [symmetry; exact E|].
+    unfold weight; simpl. rewrite Pg. simpl. destruct (t_w th); lia.
+Qed.
+
+Lemma run_bounded ths sched ths' : lrun ths sched = Some ths' -> length sched + measure ths' <= measure ths.
+Proof.
+  revert ths. induction sched as [|i t IH]; simpl; intros ths H.
+  - injection H as <-. lia.
+  - destruct (lstep ths i) as [x|] eqn:E; try discriminate. specialize (IH _ H). pose proof (step_decreases _ _ _ E). lia.
+Qed.
+
+Lemma lrun_app ths s1 s2 ths1 ths2 : lrun ths s1 = Some ths1 -> lrun ths1 s2 = Some ths2 -> lrun ths (s1 ++ s2) = Some ths2.
+Proof.
+  revert ths. induction s1 as [|i t IH]; simpl; intros ths H1 H2.
+  - injection H1 as <-. auto.
+  - destruct (lstep ths i); try discriminate. eauto.
+Qed.
+
+(* from any state that follows the discipline, everybody can finish *)
+Lemma can_finish ths : ok ths -> exists sched ths', lrun ths sched = Some ths' /\ all_done ths' = true.
+Proof.
+  remember (measure ths) as n eqn:E. revert ths E. induction n as [n IH] using lt_wf_ind. intros ths E O.
+  destruct (all_done ths) eqn:D.
+  - exists [], ths. auto.
+  - destruct (progress ths O D) as (i & x & St).
+    pose proof (step_decreases _ _ _ St) as L.
+    destruct (IH (measure x) ltac:(lia) x eq_refl (ok_step _ _ _ O St)) as (sc & y & R & F).
+    exists (i :: sc), y. simpl. rewrite St. auto.
+Qed.
+
+(* ---- the functions of udp.go follow the discipline ---- *)
+Lemma flat_from_app m p q : flat_from m p = true -> flat_from m (p ++ q) = flat q.
+Proof.
+  revert m. induction p as [|op p IH]; intros m H; simpl in *.
+  - destruct m; try discriminate. reflexivity.
+  - destruct op, m; try discriminate; auto.
+Qed.
+
+Lemma closes_flat k : flat (closes k) = true.
+Proof. induction k; simpl; auto. Qed.
+
+Lemma code_prog_flat p : code_prog p -> flat p = true.
+Proof.
+  induction 1; try reflexivity.
+  - unfold cleanup_prog. unfold flat. rewrite (flat_from_app MOut [LR; Lt; Lt; Lr]); [apply closes_flat | reflexivity].
+  - unfold flat. rewrite flat_from_app; auto.
+Qed.
+
+Lemma nested_not_flat k : flat (cleanup_nested k) = false.
+Proof. reflexivity. Qed.
+
+(* ---- statements ---- *)
+Lemma no_deadlock progs sched ths : Forall code_prog progs -> lrun (start progs) sched = Some ths -> deadlocked ths = false.
+Proof.
+  intros C R. assert (O : ok ths).
+  { eapply ok_run; [|exact R]. apply ok_start. eapply Forall_impl; [|exact C]. apply code_prog_flat. }
+  unfold deadlocked. destruct (all_done ths) eqn:D; simpl; auto.
+  destruct (progress ths O D) as (i & x & St).
+  assert (E : enabled ths = true).
+  { unfold enabled. apply existsb_exists. exists i. split.
+    - apply in_seq. unfold lstep in St. destruct (nth_error ths i) eqn:N; try discriminate.
+      assert (i < length ths) by (apply nth_error_Some; congruence). lia.
+    - rewrite St. auto. }
+  rewrite E. reflexivity.
+Qed.
+
+Lemma all_finish progs sched ths : Forall code_prog progs -> lrun (start progs) sched = Some ths ->
+  length sched <= measure (start progs) /\
+  exists sched' ths', lrun ths sched' = Some ths' /\ all_done ths' = true.
+Proof.
+  intros C R. split.
+  - pose proof (run_bounded _ _ _ R). lia.
+  - apply can_finish. eapply ok_run; [|exact R]. apply ok_start. eapply Forall_impl; [|exact C]. apply code_prog_flat.
+Qed.
+
+(* nobody ever holds m.mutex twice, and nobody asks for it while holding it *)
+Definition asks (th : thread) : bool := match t_prog th with LR :: _ | LW :: _ => true | _ => false end.
+Lemma never_nested progs sched ths : Forall code_prog progs -> lrun (start progs) sched = Some ths ->
+  Forall (fun th => t_r th <= 1 /\ (t_r th = 1 -> t_w th = WNo /\ asks th = false) /\ (t_w th = WHeld -> t_r th = 0 /\ asks th = false)) ths.
+Proof.
+  intros C R. assert (O : ok ths).
+  { eapply ok_run; [|exact R]. apply ok_start. eapply Forall_impl; [|exact C]. apply code_prog_flat. }
+  eapply Forall_impl; [|exact O]. intros th K. unfold ok_thread, asks in *.
+  destruct (t_r th) as [|[|k]], (t_w th); try contradiction; repeat split; try lia; try congruence; intros;
+    try discriminate; destruct (t_prog th) as [|[] p]; simpl in K; try discriminate; auto; try lia.
+Qed.
+
+(* the neighbouring design deadlocks: the sweeper holds the read lock, the receive loop asks for the write lock to insert
+   a new session, the sweeper's Count() asks for the read lock again *)
+Lemma nested_rlock_deadlocks :
+  exists sched ths, lrun (start [cleanup_nested 0; feed_miss]) sched = Some ths /\ deadlocked ths = true /\ all_done ths = false.
+Proof. exists [0; 1; 1; 1; 1; 1]. eexists. split; [reflexivity|]. split; reflexivity. Qed.
+
+(* ... and so does the final cleanup against a reply loop that is ending its session *)
+Lemma nested_rlock_deadlocks_exit :
+  exists sched ths, lrun (start [cleanup_nested 1; reply_exit_prog]) sched = Some ths /\ deadlocked ths = true.
+Proof. exists [0; 1; 1; 1]. eexists. split; reflexivity. Qed.
+
+End LocksP.
